@@ -104,7 +104,7 @@ CHECKS = {
     "C14": {
         "scenarios": [{"name": "payouts"}, {"name": "ledger"}, {"name": "bank"}, {"name": "snapshots"}],
         "accept": ["staking:", "payouts:"],
-        "technique": "Lean: snapshot taken first in the transaction phase (current := balances before the block's conversions / transactions / rewards, past := previous current); nothing off the cadence; stakers come from the inner join (absent from either snapshot => not considered); total paid = min(total stake, cap), exact when over, full when under, proportional shares; stake uses min(current, past) and ignores PEG; staking order independent of map iteration (C01). Tie: ConversionSupplySet vs the model on random sets with ties; lock-step chain over two snapshot heights (one ungraded) with the staking specification recomputed from the snapshot tables; snapshot rotation checked against the balance dumps (current = balances before the block, past = previous current) on 2.0.2 chains whose snapshot heights have unrated held assets / unrated pUSD",
+        "technique": "Lean: snapshot taken first in the transaction phase (current := balances before the block's conversions / transactions / rewards, past := previous current); nothing off the cadence; stakers come from the inner join (absent from either snapshot => not considered); total paid = min(total stake, cap), exact when over, full when under, proportional shares; stake uses min(current, past) and ignores PEG; staking order independent of map iteration (C01); staking_payout_exact: a successful snapshot step credits, for every address and asset, exactly the Payouts share in PEG of each valued staker of the inner join and nothing else. Tie: ConversionSupplySet vs the model on random sets with ties; lock-step chain over two snapshot heights (one ungraded) with the staking specification recomputed from the snapshot tables; snapshot rotation checked against the balance dumps (current = balances before the block, past = previous current) on 2.0.2 chains whose snapshot heights have unrated held assets / unrated pUSD",
         "assumptions": ["every per-asset valuation fits in int64 (otherwise the block fails: C08)"],
         "design_ref": "DESIGN.md §7 C14",
     },
